@@ -83,23 +83,37 @@ structure Ctx where
   locks : List Lock
   deriving DecidableEq, Repr
 
+/-! `allB` / `anyB` / `Nat.beq`: the kernel evaluates these several times faster than `List.all` / `&&` / `==`
+(measured; the table check is decided by kernel evaluation). -/
+def allB {α : Type} : List α → (α → Bool) → Bool
+  | [], _ => true
+  | h :: t, p => if p h then allB t p else false
+
+def anyB {α : Type} : List α → (α → Bool) → Bool
+  | [], _ => false
+  | h :: t, p => if p h then true else anyB t p
+
 /-! Explicit Boolean equality tests (cheap for the kernel to evaluate; `same… = true → =` is proved in Proofs). -/
 def boolSame (a b : Bool) : Bool := (a && b) || (!a && !b)
 
-def Lock.same (a b : Lock) : Bool := a.name == b.name && boolSame a.excl b.excl
+def Lock.same (a b : Lock) : Bool := if Nat.beq a.name b.name then boolSame a.excl b.excl else false
 
 def locksSame : List Lock → List Lock → Bool
   | [], [] => true
-  | a :: as, b :: bs => Lock.same a b && locksSame as bs
+  | a :: as, b :: bs => if Lock.same a b then locksSame as bs else false
   | _, _ => false
 
 def optSame : Option Nat → Option Nat → Bool
   | none, none => true
-  | some a, some b => a == b
+  | some a, some b => Nat.beq a b
   | _, _ => false
 
 def Ctx.same (c d : Ctx) : Bool :=
-  c.group == d.group && optSame c.origin d.origin && c.fn == d.fn && locksSame c.locks d.locks
+  if Nat.beq c.fn d.fn then
+    if Nat.beq c.group d.group then
+      if optSame c.origin d.origin then locksSame c.locks d.locks else false
+    else false
+  else false
 
 /-- locks the callee starts with -/
 def inherit (L : List Lock) (c : Call) : List Lock := if c.same then L ++ c.locks else []
@@ -118,20 +132,26 @@ def concurrent (e₁ e₂ : Entry) : Prop := e₁.group = e₂.group ∧ (e₁.f
 
 /-- one common mutex, held exclusively by at least one side -/
 def guards (l₁ l₂ : List Lock) : Bool :=
-  l₁.any fun a => l₂.any fun b => a.name == b.name && (a.excl || b.excl)
+  anyB l₁ fun a => anyB l₂ fun b => if Nat.beq a.name b.name then (if a.excl then true else b.excl) else false
 
 def synchronised (a₁ : Access) (l₁ : List Lock) (a₂ : Access) (l₂ : List Lock) : Bool :=
   (a₁.atomic && a₂.atomic) || guards l₁ l₂
 
 /-- an unsynchronised conflicting pair: same location, at least one write, neither both atomic nor commonly locked -/
 def conflict (a₁ : Access) (l₁ : List Lock) (a₂ : Access) (l₂ : List Lock) : Bool :=
-  a₁.loc == a₂.loc && (a₁.write || a₂.write) && !synchronised a₁ l₁ a₂ l₂
+  if Nat.beq a₁.loc a₂.loc then
+    if (if a₁.write then true else a₂.write) then !synchronised a₁ l₁ a₂ l₂ else false
+  else false
 
 /-- a known-racy pair list entry: (location, function, function), unordered -/
 abbrev Known := List (Nat × Nat × Nat)
 
 def listed (k : Known) (loc f g : Nat) : Bool :=
-  k.any fun x => x.1 == loc && ((x.2.1 == f && x.2.2 == g) || (x.2.1 == g && x.2.2 == f))
+  anyB k fun x =>
+    if Nat.beq x.1 loc then
+      if Nat.beq x.2.1 f then (if Nat.beq x.2.2 g then true else (if Nat.beq x.2.1 g then Nat.beq x.2.2 f else false))
+      else (if Nat.beq x.2.1 g then Nat.beq x.2.2 f else false)
+    else false
 
 /-- THE PROPERTY over a table, minus the pairs in `k`: whatever two concurrently callable entries do, along any call
 paths, every conflicting pair of accesses is synchronised or one of the listed pairs. `k = []` is the full property. -/
@@ -146,14 +166,20 @@ def NoConflictExcept (t : Table) (k : Known) : Prop :=
 def tagOf (e : Entry) : Option Nat := if e.selfConc then none else some e.fn
 
 /-- contexts may belong to concurrently running entries -/
-def concCtx (c₁ c₂ : Ctx) : Bool :=
-  c₁.group == c₂.group && (c₁.origin.isNone || c₂.origin.isNone || c₁.origin != c₂.origin)
+def concTags (g₁ : Nat) (o₁ : Option Nat) (g₂ : Nat) (o₂ : Option Nat) : Bool :=
+  if Nat.beq g₁ g₂ then
+    match o₁, o₂ with
+    | some a, some b => !(Nat.beq a b)
+    | _, _ => true
+  else false
+
+def concCtx (c₁ c₂ : Ctx) : Bool := concTags c₁.group c₁.origin c₂.group c₂.origin
 
 /-- `cs` contains every entry's start context and is closed under the call edges -/
 def closedB (t : Table) (cs : List Ctx) : Bool :=
-  (t.entries.all fun e => cs.any (Ctx.same ⟨e.group, tagOf e, e.fn, []⟩)) &&
-  (cs.all fun c => (t.calls.filter fun cl => cl.caller == c.fn).all fun cl =>
-      cs.any (Ctx.same ⟨c.group, c.origin, cl.callee, inherit c.locks cl⟩))
+  (allB t.entries fun e => anyB cs (Ctx.same ⟨e.group, tagOf e, e.fn, []⟩)) &&
+  (allB cs fun c => allB t.calls fun cl =>
+      if Nat.beq cl.caller c.fn then anyB cs (Ctx.same ⟨c.group, c.origin, cl.callee, inherit c.locks cl⟩) else true)
 
 /-- the accesses each context performs -/
 def effs (t : Table) (cs : List Ctx) : List (Ctx × Access) :=
@@ -173,29 +199,41 @@ structure Eff where
 def effOf (c : Ctx) (a : Access) : Eff := ⟨c.group, c.origin, a.fn, a.loc, a.write, a.atomic, effLocks a c.locks⟩
 
 def Eff.same (p q : Eff) : Bool :=
-  p.group == q.group && optSame p.origin q.origin && p.fn == q.fn && p.loc == q.loc &&
-    boolSame p.write q.write && boolSame p.atomic q.atomic && locksSame p.locks q.locks
+  if Nat.beq p.fn q.fn then
+    if Nat.beq p.loc q.loc then
+      if Nat.beq p.group q.group then
+        if optSame p.origin q.origin then
+          if boolSame p.write q.write then
+            if boolSame p.atomic q.atomic then locksSame p.locks q.locks else false
+          else false
+        else false
+      else false
+    else false
+  else false
 
-def concEff (p q : Eff) : Bool :=
-  p.group == q.group && (p.origin.isNone || q.origin.isNone || p.origin != q.origin)
+def concEff (p q : Eff) : Bool := concTags p.group p.origin q.group q.origin
 
 def conflictEff (p q : Eff) : Bool :=
-  p.loc == q.loc && (p.write || q.write) && !((p.atomic && q.atomic) || guards p.locks q.locks)
+  if Nat.beq p.loc q.loc then
+    if (if p.write then true else q.write) then !((p.atomic && q.atomic) || guards p.locks q.locks) else false
+  else false
 
 def pairOK (k : Known) (p q : Eff) : Bool :=
-  !(conflictEff p q && concEff p q) || listed k p.loc p.fn q.fn
+  if conflictEff p q then (if concEff p q then listed k p.loc p.fn q.fn else true) else true
 
 /-- effective accesses grouped by location (a certificate, like the context list: `coveredB` re-checks it) -/
 abbrev Groups := List (Nat × List Eff)
 
 /-- every access of every context appears in a group with its location as key -/
 def coveredB (t : Table) (cs : List Ctx) (gs : Groups) : Bool :=
-  cs.all fun c => t.accesses.all fun a =>
-    a.fn != c.fn || (gs.any fun g => g.1 == a.loc && g.2.any (Eff.same (effOf c a)))
+  allB cs fun c => allB t.accesses fun a =>
+    if Nat.beq a.fn c.fn then (anyB gs fun g => if Nat.beq g.1 a.loc then anyB g.2 (Eff.same (effOf c a)) else false)
+    else true
 
 /-- within (and across equal-keyed) groups every pair is fine -/
 def groupsOKB (k : Known) (gs : Groups) : Bool :=
-  gs.all fun g => gs.all fun g' => g.1 != g'.1 || (g.2.all fun p => g'.2.all fun q => pairOK k p q)
+  allB gs fun g => allB gs fun g' =>
+    if Nat.beq g.1 g'.1 then (allB g.2 fun p => allB g'.2 fun q => pairOK k p q) else true
 
 def checkB (t : Table) (cs : List Ctx) (gs : Groups) (k : Known) : Bool :=
   coveredB t cs gs && groupsOKB k gs
